@@ -25,6 +25,12 @@ QUICK_CAP = 400          # quick tier: lines kept per (build, reduction function
 QUICK_CAP_OTHER = 120    # ... and per (build, other function, edition)
 THOROUGH_CAP = {"rel": 2000, "w32": 1500, "fast": 600, "dbg": 600}
 SHARD = 60000            # lines per TLC run
+# functions whose specification is a Euclid / square-and-multiply loop over BigNat (seconds per line on long operands):
+# beyond HEAVY_N words at most HEAVY_KEEP lines per (build, function, edition, length) are validated
+HEAVY_OPS = {"zzInvMod", "zzDivMod", "zzAlmostInvMod", "zzGCD", "zzExGCD", "zzLCM", "zzIsCoprime", "zzJacobi", "zzPowerMod",
+             "qrInv", "qrDiv", "qrPower", "ppInvMod", "ppDivMod", "ppGCD", "ppExGCD", "ppIsIrred", "ppMinPoly", "zzSqrt"}
+HEAVY_N = 4
+HEAVY_KEEP = 6
 DRV_TIMEOUT = 900
 
 
@@ -288,6 +294,7 @@ def run(ctx):
                     if nn < minn.get(g, 1 << 30):
                         minn[g] = nn
         pos = collections.Counter()
+        heavy = collections.Counter()
         rows = []
         with open(out) as f:
             for l in f:
@@ -304,6 +311,15 @@ def run(ctx):
                 # key of a finding, is then the same for every seed and tier); longer operands: classes whose hash is 0
                 # modulo the stride (a class is kept or dropped as a whole, independently of the data)
                 small = _nof(l) <= max(1, minn.get(g, 0))
+                if g[0] in HEAVY_OPS:
+                    nn = _nof(l)
+                    if g[0].startswith("qr"):
+                        nn = (nn + 7) // 8
+                    if nn > HEAVY_N:
+                        hk = (g, nn)
+                        heavy[hk] += 1
+                        if heavy[hk] > HEAVY_KEEP:
+                            continue
                 if not small and stride > 1 and '"hang":1' not in l and '"abort":1' not in l:
                     c = _CLS.search(l)
                     if zlib.crc32(("%s|%s|%s" % (g, _nof(l), c.group(0) if c else "")).encode()) % stride:
@@ -463,6 +479,8 @@ def run(ctx):
     for s in (lines[:1] + [r for r in lines if r["op"] == "zzRedMont"][:1] + [r for r in lines if r["op"] == "ppMul" and r.get("n", 0) >= 10][:1]
               + [r for r in lines if r["fam"] == "qr"][:1]):
         ev.sample({k: (v if not isinstance(v, list) or len(v) <= 24 else v[:24] + ["..."]) for k, v in s.items()})
+    ev.assume("Euclid / exponentiation type functions (%s) are validated on at most %d calls per build, function and length "
+              "beyond %d words (their TLA+ evaluation costs seconds per call there)" % (", ".join(sorted(HEAVY_OPS)), HEAVY_KEEP, HEAVY_N))
     ev.assume("preconditions of the headers are generator constraints (operands < mod, mod odd where required, b != 0, "
               "moduli > 1, deg a >= 1 for ppIsIrred, sequences of linear complexity <= l for ppMinPoly)")
     ev.assume("borrow of zzSub*/zzSubMulW is specified by the identity c - B^n*borrow == a - x of the header of zzSub "
